@@ -34,3 +34,18 @@ Example C17_example :
   run 3 init (plain [1; 2; 3; 4; 5; 3; 6; 6; 1]%N) =
   Ok (map Some [0; 1; 2; 0; 1; 2; 0; 0; 1]).
 Proof. vm_compute. reflexivity. Qed.
+
+(* Line numbers.  The condition under which format_blame_line_number leaves the number field blank is
+   translated from the source on every run (GenBlameNumbers.v); it is the negation of the documented
+   rule (every line / start of a block / start of a block and every N-th line), so in every mode the
+   first line of a block carries its number, and in every-N mode so does every N-th line. *)
+From DV Require Import BlameNumbers GenBlameNumbers BlameNumbersFacts.
+
+Theorem C17_number_blank_iff_not_shown : forall m r l, code_blank m r l = negb (shown_spec m r l).
+Proof. exact blank_iff_not_shown. Qed.
+
+Theorem C17_number_shown_at_block_start : forall m l, code_blank m false l = false.
+Proof. exact number_shown_at_block_start. Qed.
+
+Theorem C17_every_n_shows_multiples : forall n r l, (l mod n = 0)%N -> code_blank (Every n) r l = false.
+Proof. exact every_n_shows_multiples. Qed.
